@@ -33,7 +33,12 @@ def main(argv: list[str] | None = None) -> int:
     if args.replay:
         with open(args.replay) as f:
             doc = json.load(f)
-        still, text = mod.replay(doc)
+        if isinstance(doc.get("replay"), dict) and "crash_job" in doc["replay"]:
+            _job, r, err = core._run_one((modname, doc["replay"]["crash_job"]))
+            crashed = r is not None and any(v.key.startswith("crash/") for v in r.violations)
+            still, text = crashed, (r.violations[0].message if crashed else f"job {doc['replay']['crash_job']!r} ran without a library exception" + (f"\n{err}" if err else ""))
+        else:
+            still, text = mod.replay(doc)
         print(text)
         print("REPLAY: violation reproduced" if still else "REPLAY: no violation on this tree")
         return 1 if still else 0
